@@ -48,6 +48,7 @@ rev('C08', 'revert_factors_pickle.diff', 'cached factors hold an unpicklable map
 rev('C08', 'revert_alias_identity.diff', 'equality proxy over the de-aliased operand')
 rev('C08', 'revert_source_eq.diff', 'Source equality ignores the (dynamic) source type the hash mixes in')
 rev('C08', 'revert_7596ab3_compound_kind_pickling.diff', 'compound kinds without __getnewargs__')
+rev('C08', 'revert_compound_ne.diff', 'compound kinds inherit tuple.__ne__')
 
 COMPILER = 'forml/flow/_code/compiler.py'
 # ---- C01 ------------------------------------------------------------------------------------------------------------
